@@ -45,9 +45,10 @@ class FnResult:
     self.exits = {}
     self.canary_ok = None
     self.covers = 0
+    self.samples = []         # (inputs, predicted result) per returning path, from a model of its path condition
 
 
-def verify_function(world, reg, c, prop, timeout_ms=20000, mutate=None, recheck=False):
+def verify_function(world, reg, c, prop, timeout_ms=20000, mutate=None, recheck=False, sample=False):
   """Checks the real source of c.target against contract c. Returns FnResult."""
   res = FnResult(c.key)
   t0 = time.time()
@@ -174,6 +175,8 @@ def verify_function(world, reg, c, prop, timeout_ms=20000, mutate=None, recheck=
       if not allowed:
         it.oblige(f'{name}/no-unexpected-exception[{val.cls}]', z3.BoolVal(False), 'unexpected-exception',
                   {'text': f'{val.cls} escapes but the contract does not allow it: {val.args}'})
+    if sample and outcome == 'return' and isinstance(val, (VInt, VBool, VReal)) and len(meta.setdefault('samples', [])) < 8:
+      meta['samples'].append((list(path.pc), dict(env), val))
     frame_check(it, c, env, old, name)
     for k, e in enumerate(c.always):
       it.oblige(f'{name}/always#{k}', it.spec(e, env2, old), 'postcondition-all-exits', {'text': e})
@@ -206,6 +209,32 @@ def verify_function(world, reg, c, prop, timeout_ms=20000, mutate=None, recheck=
               wt[wn] = eval_witness(o.model, wv)
         o.info['witness'] = wt
       o.model = None
+    for pc, env_, val_ in meta.get('samples', []):
+      sv = z3.Solver()
+      sv.set('timeout', 3000)
+      for f_ in pc:
+        sv.add(f_)
+      if sv.check() != z3.sat:
+        continue
+      m_ = sv.model()
+      inputs = {}
+      for pn, pv in env_.items():
+        if isinstance(pv, (VInt, VBool, VReal)):
+          inputs[pn] = eval_witness(m_, pv)
+        elif isinstance(pv, VStr) and pv.s is not None:
+          inputs[pn] = {'__str__': pv.s}
+        elif isinstance(pv, VNoneT):
+          inputs[pn] = None
+        elif isinstance(pv, VObj):
+          inputs[pn] = {'__class__': pv.cls, **{fn_: eval_witness(m_, fv) for fn_, fv in pv.f.items()
+                                                 if isinstance(fv, (VInt, VBool, VReal)) and not fn_.startswith('__')}}
+          # an object with opaque / structured fields cannot be rebuilt faithfully: no cross-check for this sample
+          declared = set(pv.types) | set(pv.f)
+          if any(not isinstance(pv.f.get(fn_), (VInt, VBool, VReal, VNoneT)) for fn_ in declared if not fn_.startswith('__')):
+            inputs[pn]['__partial__'] = True
+        else:
+          inputs[pn] = {'__partial__': True}
+      res.samples.append(dict(inputs=inputs, predicted=eval_witness(m_, val_)))
     res.obligations = obls
     # a failed obligation takes precedence: assuming a false goal afterwards is what
     # made the rest of that path infeasible
